@@ -47,17 +47,20 @@ RULE = ("One case = one solve of one LQ problem for one batch element. Problems:
 ASSUME = ["reference roll-out, cost, gradient (torch autograd, float64) and dense optimum (numpy, one step of "
           "iterative refinement) never call the library",
           "the horizon cost uses steps t = 0..T-1 (x_T carries no cost), as LQR documents and computes",
-          "gradient tolerance 2^16 * u * s_t with s_t the costate recursion on absolute values "
-          "(max_i [|Q_t||tau_t| + |p_t|]_u + |B_t|^T Lambda_{t+1}); this is 1.5e-11 * s_t in float64, well inside "
+          "gradient tolerance 2^18 * u * s_t with s_t the costate recursion on absolute values "
+          "(max_i [|Q_t||tau_t| + |p_t|]_u + |B_t|^T Lambda_{t+1}); this is 5.8e-11 * s_t in float64, well inside "
           "the 1e-8 * scale of the design",
-          "dense comparison is judged only when 256 * u * cond(H) < 0.1",
+          "dense comparison |u - u*| <= 1024 u cond(H) |u*| is judged only when 1024 * u * cond(H) < 0.1",
           "LTV horizon step t uses the matrices of system time t (dt = 1); LQR is documented to solve from "
           "horizon time 0 whatever the object's current system time",
-          "MPC on nonlinear systems: only feasibility and cost consistency are demanded (no optimality claim)",
+          "MPC on nonlinear systems: only feasibility and cost consistency are demanded (no optimality claim); the "
+          "generated systems are globally Lipschitz (linear part + sin/cos of linear forms) so that iterative LQR "
+          "without line search cannot blow up; a solve whose iteration costs diverge (> 1e6 x the first, or "
+          "non-finite) is marked not-judged instead of being reported",
           "box constraints u_lower/u_upper/du are not exercised (not in the property)", "CPU only"]
 
 DT = {"f64": torch.float64, "f32": torch.float32}
-C_DYN, C_COST, C_GRAD, C_DENSE, C_PERT, C_NLS = 32.0, 128.0, 2.0 ** 16, 256.0, 64.0, 64.0
+C_DYN, C_COST, C_GRAD, C_DENSE, C_PERT, C_NLS = 32.0, 256.0, 2.0 ** 18, 1024.0, 64.0, 64.0
 U64 = float(np.finfo(np.float64).eps)
 
 
@@ -170,7 +173,7 @@ class Problem:
         self.kappa = float(10 ** rng.uniform(0, 3 if f32 else 6))
         if force.get("kappa"):
             self.kappa = force["kappa"]
-        self.c1_kind = str(rng.choice(["none", "const", "const", "tv"]))
+        self.c1_kind = force.get("c1", str(rng.choice(["none", "const", "const", "tv"])))
         if not self.family.startswith("LTV-idx") and self.c1_kind == "tv":
             self.c1_kind = "const"
         self.q_tv = bool(rng.random() < 0.75)            # Q, p per step, or time-invariant (tiled by LQR)
@@ -207,7 +210,7 @@ class Problem:
             self.c1ref = np.zeros((B, T, ns)) if c1v is None else \
                 np.repeat(np.broadcast_to(f64(c1v), (B, ns))[:, None], T, axis=1)
         elif self.family == "LTV-idx":
-            P = int(rng.choice([T, T, T + 3, max(1, T // 2), max(1, T - 1)]))
+            P = force.get("P", int(rng.choice([T, T, T + 3, max(1, T // 2), max(1, T - 1)])))
             self.P = P
             A = np.stack([[scaled_to_radius(rng.standard_normal((ns, ns)), self.rho) for _ in range(P)] for _ in range(B)])
             Bm = rng.standard_normal((B, P, ns, nc))
@@ -469,6 +472,22 @@ def run_mpc_linear(ck, rng, prob, pid):
         check_solution(ck, rng, prob, 0, X[0], Uo[0], Co[0], x0[0], regime, "MPC", (pid, j, 0), "mpc_linear_")
 
 
+def spy_on(mpc):
+    """Record the cost MPC hands to its stepper after every iterative-LQR pass."""
+    log, orig = [], mpc.stepper.step
+
+    def step(loss):
+        log.append(float(torch.as_tensor(loss).detach().double().reshape(-1)[0]))
+        return orig(loss)
+    mpc.stepper.step = step
+    return log
+
+
+def diverged(log):
+    a = np.asarray(log, dtype=np.float64)
+    return bool(a.size and (not np.isfinite(a).all() or np.abs(a).max() > 1e6 * (1 + abs(a[0]))))
+
+
 def check_nls_traj(ck, step_ref, Q, p, x, u, cost, x0, dtype, regime, entry, key, wit):
     """step_ref(x_t, u_t, t) -> (next state, round-off magnitude) from a separate copy of the dynamics."""
     ud = u_of(dtype)
@@ -518,6 +537,7 @@ def run_mpc_cartpole(ck, rng, dn, pid):
     stepper, sk = make_stepper(rng)
     sysobj = CartPole(dt, length, mc, mp_, g)
     mpc = pp.module.MPC(sysobj, tQ, tp, T, stepper=stepper)
+    log = spy_on(mpc)
     wit = {"system": "cartpole", "dt": dt, "length": length, "cartmass": mc, "polemass": mp_, "T": T, "dtype": dn,
            "x_init": f64(x_init).tolist(), "u_init": uk, "stepper": sk}
     ck.mark("mpc/cartpole")
@@ -528,9 +548,16 @@ def run_mpc_cartpole(ck, rng, dn, pid):
         try:
             out = mpc(dt, x_init, u_init=ut)
         except Exception as e:  # noqa
+            if diverged(log):
+                ck.mark("mpc/ilqr-diverged-not-judged")
+                return
             ck.violation("mpc_nls_start", regime, "MPC", "raised:" + type(e).__name__,
-                         dict(wit, exception=repr(e)[:500], traceback=traceback.format_exc(limit=-6)[-1500:]))
+                         dict(wit, exception=repr(e)[:500], iteration_costs=list(log), traceback=traceback.format_exc(limit=-6)[-1500:]))
             return
+        if diverged(log):
+            ck.mark("mpc/ilqr-diverged-not-judged")
+            return
+        del log[:]
         ok = isinstance(out, tuple) and len(out) == 3 and tuple(out[0].shape) == (1, T + 1, 4) and tuple(out[1].shape) == (1, T, 1)
         if not ck.check(ok, "mpc_nls_start", regime, "MPC", "result_shapes_or_dtype", wit):
             return
@@ -551,6 +578,7 @@ def run_mpc_nls(ck, rng, dn, pid):
     stepper, sk = make_stepper(rng)
     sysobj = GenNLS(S)
     mpc = pp.module.MPC(sysobj, tQ, tp, T, stepper=stepper)
+    log = spy_on(mpc)
     dt = 1 if time_dep else rng.choice([1, 0.1])
     wit = {"system": S.describe(), "T": T, "dtype": dn, "x_init": f64(x_init).tolist(), "u_init": uk, "stepper": sk, "dt": float(dt)}
     ck.mark("mpc/nls")
@@ -565,9 +593,16 @@ def run_mpc_nls(ck, rng, dn, pid):
         try:
             out = mpc(dt, x_init, u_init=ut)
         except Exception as e:  # noqa
+            if diverged(log):
+                ck.mark("mpc/ilqr-diverged-not-judged")
+                return
             ck.violation("mpc_nls_start", regime, "MPC", "raised:" + type(e).__name__,
-                         dict(wit, exception=repr(e)[:500], traceback=traceback.format_exc(limit=-6)[-1500:]))
+                         dict(wit, exception=repr(e)[:500], iteration_costs=list(log), traceback=traceback.format_exc(limit=-6)[-1500:]))
             return
+        if diverged(log):
+            ck.mark("mpc/ilqr-diverged-not-judged")
+            return
+        del log[:]
         ok = isinstance(out, tuple) and len(out) == 3 and tuple(out[0].shape) == (1, T + 1, n) and tuple(out[1].shape) == (1, T, m)
         if not ck.check(ok, "mpc_nls_start", regime, "MPC", "result_shapes_or_dtype", wit):
             return
@@ -583,6 +618,8 @@ FORCED = [
     {"T": 1}, {"T": 1, "family": "LTV-idx"}, {"T": 2}, {"T": 20}, {"T": 20, "family": "LTV-idx", "B": 3},
     {"ns": 3, "nc": 3, "family": "LTV-idx"}, {"ns": 2, "nc": 2, "family": "LTI"}, {"ns": 6, "nc": 6, "T": 12},
     {"kappa": 1e6, "family": "LTI"}, {"kappa": 1e6, "family": "LTV-idx"}, {"B": 1}, {"B": 2}, {"B": 3},
+    {"family": "LTV-idx", "c1": "tv", "T": 6, "P": 3}, {"family": "LTV-idx", "c1": "tv", "T": 5, "P": 8},
+    {"family": "LTI", "c1": "none"}, {"family": "LTV-func", "c1": "const", "T": 9},
 ]
 
 
@@ -601,22 +638,22 @@ def run(ck):
             if dn == "f32" and force.get("kappa"):
                 force["kappa"] = 1e3
             run_lqr_problem(ck, rng, Problem(rng, dn, force), (ck.shard, pid))
-    n_rand = 200 if thorough else 14
+    n_rand = 500 if thorough else 14
     for i in range(n_rand):
         pid += 1
         dn = "f64" if i % 3 else "f32"
         run_lqr_problem(ck, rng, Problem(rng, dn), (ck.shard, pid))
     # ---- MPC on linear systems
-    for i in range(60 if thorough else 6):
+    for i in range(150 if thorough else 6):
         pid += 1
         dn = "f64" if i % 3 else "f32"
         force = {"ns": 1, "T": 4, "family": "LTI-shared"} if i == 1 else {}
         run_mpc_linear(ck, rng, Problem(rng, dn, force, mpc=True), (ck.shard, pid))
     # ---- MPC on nonlinear systems
-    for i in range(40 if thorough else 4):
+    for i in range(100 if thorough else 4):
         pid += 1
         run_mpc_cartpole(ck, rng, "f64" if i % 2 == 0 else "f32", (ck.shard, pid))
-    for i in range(40 if thorough else 4):
+    for i in range(100 if thorough else 4):
         pid += 1
         run_mpc_nls(ck, rng, "f64" if i % 2 == 0 else "f32", (ck.shard, pid))
 
